@@ -231,6 +231,7 @@ pub fn c02(ctx: &Ctx) -> i32 {
                         p.ops = (60, 160);
                         p.drain = false;
                         p.w_reload = 1;
+                        p.levels_override = Some(levels);
                         let mut g = crate::gen::RndGen::new(crate::util::Sm::derive(ctx.seed, 0x24_0000 + k as u64), p);
                         let mut h = g.history();
                         h.cfg.levels = levels;
